@@ -109,6 +109,12 @@ func (u *Unit) oblige(class, label string, st *State, goal *Term, pos token.Pos,
 	if isTrue(goal) && label == "" {
 		return
 	}
+	if u.con != nil && u.con.onlyAsserts != "" && class != "assert" && class != "post" {
+		// thin contract: run-time checks and callee preconditions of this function are assumed
+		u.noteHavoc("assertions-only contract of " + u.name + ": " + class + " obligations assumed")
+		u.assume(st.guard, goal)
+		return
+	}
 	u.counter[class]++
 	name := fmt.Sprintf("%s/%s/%d", u.name, class, u.counter[class])
 	if label != "" {
@@ -437,6 +443,27 @@ func (u *Unit) execBody(fr *Frame, st0 *State) []retPoint {
 				for _, r := range x.Results {
 					vals = append(vals, u.value(fr, r))
 				}
+				if fr.top && fr.con != nil {
+					var ats []*Clause
+					for _, cl := range fr.con.clauses {
+						if cl.kind == "at" && cl.retPos.IsValid() && cl.retPos == x.Pos() {
+							ats = append(ats, cl)
+						}
+					}
+					for _, cl := range ats {
+						fenv := u.frameEnv(fr, st, nil)
+						for i, r := range u.ci.results {
+							if i < len(vals) {
+								fenv.vars[r] = vals[i]
+							}
+						}
+						if len(vals) == 1 {
+							fenv.vars["result"] = vals[0]
+						}
+						g := u.evalIn(fenv, cl)
+						u.oblige("assert", cl.at+"-"+labelOr(cl, ats), st, g, token.NoPos, cl.text)
+					}
+				}
 				rets = append(rets, retPoint{st: st, vals: vals})
 				alive = false
 			case *ssa.Panic:
@@ -703,6 +730,12 @@ func (u *Unit) step(fr *Frame, st *State, ins ssa.Instruction) {
 		fr.vals[x] = u.value(fr, x.Tuple).(Tuple)[x.Index]
 	case *ssa.Range:
 		// range over a string: the iterator is a hidden cell holding the byte position
+		if _, isMap := x.X.Type().Underlying().(*types.Map); isMap && u.con != nil && u.con.onlyAsserts != "" {
+			// thin contracts only: a map iteration yields an unknown number of unconstrained pairs
+			fr.vals[x] = &mapIter{}
+			u.noteHavoc("range over a map (keys and values unconstrained)")
+			break
+		}
 		if !isString(x.X.Type()) {
 			panic(u.errf("range over %s is outside the subset", x.X.Type()))
 		}
@@ -710,6 +743,18 @@ func (u *Unit) step(fr *Frame, st *State, ins ssa.Instruction) {
 		st.cells[g] = u.m.IxConst(0)
 		fr.vals[x] = &rangeIter{cell: g, str: u.term(fr, x.X)}
 	case *ssa.Next:
+		if _, isMapIter := u.value(fr, x.Iter).(*mapIter); isMapIter {
+			tup := x.Type().(*types.Tuple)
+			okT := tb.Fresh("mapnext_ok", SBool)
+			fresh := func(t types.Type, hint string) Val {
+				if b, ok := t.(*types.Basic); ok && b.Kind() == types.Invalid {
+					return undefVal{} // the component is not used by the loop
+				}
+				return u.freshVal(st, t, hint)
+			}
+			fr.vals[x] = Tuple{okT, fresh(tup.At(1).Type(), "mapnext_key"), fresh(tup.At(2).Type(), "mapnext_val")}
+			break
+		}
 		it, ok := u.value(fr, x.Iter).(*rangeIter)
 		if !ok || !x.IsString {
 			panic(u.errf("Next over a non-string iterator is outside the subset"))
@@ -752,6 +797,7 @@ func (u *Unit) step(fr *Frame, st *State, ins ssa.Instruction) {
 	case *ssa.TypeAssert:
 		fr.vals[x] = u.typeAssert(fr, st, x)
 	case *ssa.Call:
+		u.callAssertsBefore(fr, st, x)
 		fr.vals[x] = u.call(fr, st, x.Common(), x, x.Pos())
 	case *ssa.Defer:
 		var args []Val
@@ -1016,6 +1062,11 @@ func (u *Unit) equal(st *State, a, b Val, t types.Type, pos token.Pos) *Term {
 		}
 		if ok1 && ok2 && pa.kind == pCell && pb.kind == pCell {
 			return tb.Bool(pa.cell == pb.cell)
+		}
+		if ok1 && ok2 && pa.kind == pElem && pb.kind == pElem && len(pa.path) == 0 && len(pb.path) == 0 {
+			// addresses of slice elements: same array and same absolute index
+			return tb.And(tb.Eq(m.SliceRef(pa.slice), m.SliceRef(pb.slice)),
+				tb.Eq(m.ElemIx(m.SliceOff(pa.slice), pa.idx), m.ElemIx(m.SliceOff(pb.slice), pb.idx)))
 		}
 		panic(u.errf("comparison of executor-level values %T and %T", a, b))
 	}
@@ -1405,6 +1456,30 @@ func (u *Unit) rangeAliases(fr *Frame) {
 	}
 }
 
+// callAssertsBefore: `at call NAME#K assert-before|assume-before E` clauses are
+// evaluated in the state just before the call instruction.
+func (u *Unit) callAssertsBefore(fr *Frame, st *State, c *ssa.Call) {
+	if fr.con == nil || c.Pos() == token.NoPos {
+		return
+	}
+	var ats []*Clause
+	for _, cl := range fr.con.clauses {
+		if cl.kind == "at" && cl.before && cl.callPos.IsValid() && c.Common().Pos() == cl.callPos {
+			ats = append(ats, cl)
+		}
+	}
+	for _, cl := range ats {
+		env := u.frameEnv(fr, st, nil)
+		g := u.evalIn(env, cl)
+		if cl.assumeAt {
+			u.assume(st.guard, g)
+			u.noteHavoc("assumed invariant in " + u.name + ": " + cl.text)
+			continue
+		}
+		u.oblige("assert", strings.TrimPrefix(cl.at, "call:")+"-"+labelOr(cl, ats), st, g, token.NoPos, cl.text)
+	}
+}
+
 // callAsserts: `at call NAME#K assert E` clauses are checked at the end of the
 // basic block that contains the call (after its results were stored).
 func (u *Unit) callAsserts(fr *Frame, st *State, b *ssa.BasicBlock) {
@@ -1413,7 +1488,7 @@ func (u *Unit) callAsserts(fr *Frame, st *State, b *ssa.BasicBlock) {
 	}
 	var ats []*Clause
 	for _, cl := range fr.con.clauses {
-		if cl.kind != "at" || !cl.callPos.IsValid() {
+		if cl.kind != "at" || !cl.callPos.IsValid() || cl.before {
 			continue
 		}
 		for _, ins := range b.Instrs {
@@ -1449,6 +1524,9 @@ func (u *Unit) callAsserts(fr *Frame, st *State, b *ssa.BasicBlock) {
 	}
 }
 
+
+// mapIter is the executor-level value of a map range iterator (thin contracts only).
+type mapIter struct{}
 
 // rangeIter is the executor-level value of a string range iterator.
 type rangeIter struct {
